@@ -52,8 +52,9 @@ from spacepackets.cfdp import Direction  # noqa: E402
 SWEEP_RULE = (
     "every cell of PDU kind (Metadata, File Data, EOF, ACK of EOF, ACK of Finished, NAK, Finished, Keep-Alive, Prompt) x "
     "direction flag (proper / flipped) x transmission mode x CRC flag x entity id width (1, 2, 4, 8) x handler state (no "
-    "transaction, mid-transfer, after the EOF), each delivered once as routed by get_packet_destination and once, in a "
-    "second identical world, to the other handler of the addressed entity (misroute fault)"
+    "transaction, mid-transfer, waiting for the EOF acknowledgement, waiting for Finished) x receiving entity (the one the "
+    "PDU kind is meant for / the other one), each delivered once as routed by get_packet_destination and once, in a second "
+    "identical world, to the other handler of that entity (misroute fault)"
 )
 
 
@@ -64,9 +65,11 @@ def SWEEP(tier):
             for mode in (0, 1):
                 for crc in (0, 1):
                     for idw in (1, 2, 4, 8):
-                        for state in ("none", "mid", "late"):
-                            for mis in (0, 1):
-                                cells.append({"kind": kind, "flip": flip, "mode": mode, "crc": crc, "idw": idw, "state": state, "misroute": mis})
+                        for state in ("none", "mid", "late", "waitfin"):
+                            for at in ("natural", "other"):
+                                for mis in (0, 1):
+                                    cells.append({"kind": kind, "flip": flip, "mode": mode, "crc": crc, "idw": idw, "state": state,
+                                                  "at": at, "misroute": mis})
     return cells
 
 
@@ -87,10 +90,12 @@ def run_sweep(p):
                 for _ in range(9):
                     w.step()
             else:
+                stop = ("WAITING_FOR_EOF_ACK", "WAITING_FOR_FINISHED", "NOTICE_OF_COMPLETION", "IDLE") if p["state"] == "late" else (
+                    "WAITING_FOR_FINISHED", "NOTICE_OF_COMPLETION", "IDLE")
                 for _ in range(400):
                     if not w.step():
                         break
-                    if w.a.handlers["src"].step.name in ("WAITING_FOR_EOF_ACK", "WAITING_FOR_FINISHED", "NOTICE_OF_COMPLETION", "IDLE"):
+                    if w.a.handlers["src"].step.name in stop:
                         break
         syn = Synth(w, perturb=0)
         pdu, _ = syn.gen(t, p["kind"], live_seq(w), pert=False)
@@ -99,6 +104,8 @@ def run_sweep(p):
             h.direction = Direction.TOWARDS_SENDER if h.direction == Direction.TOWARDS_RECEIVER else Direction.TOWARDS_RECEIVER
         raw = bytes(pdu.pack())
         ent = w.b if p["kind"] in TO_RECEIVER else w.a
+        if p.get("at") == "other":
+            ent = w.a if ent is w.b else w.b  # the same PDU arriving at the other entity (where the flipped flag "fits")
         rec = w.deliver(ent, raw, misroute=bool(p["misroute"]))
         r = from_world(w, ctx.pop, rec is not None)
         r.cfg = dict(r.cfg, sweep=p)
